@@ -422,3 +422,41 @@ def require_names(f, names, what=None):
     if missing:
         raise AnalysisBroken("%s: the rule identifies its constructs through the local names %s, which no longer exist in %s — "
                              "re-anchor the rule (a rename is not a violation)" % (what or short(f.name), missing, short(f.name)))
+
+
+def stop_waits_for_worker(r, f, what, join_pred, allowed_state_returns=()):
+    """'after stop returns nothing of the worker runs': every way out of stop() is behind the worker thread's end — this caller's
+    own join, or a condition-variable wait for the caller that is joining — except (a) a call made ON the worker thread itself
+    (`this_thread::get_id() == <recorded id>`: it must not wait for its own exit), (b) nothing to join (`joinable()` false), and
+    (c) returns that report 'not stopped by this call' for the lifecycle states listed in allowed_state_returns."""
+    from ..cfg import search, witness_str
+    from ..expr import show, walk, last, strip_casts
+    joins = [e for e in f.stmts() if e.node.get("k") == "mcall" and e.node.get("callee") == "std::thread::join" and join_pred(e)]
+    waits = [e for e in f.stmts() if e.node.get("k") == "mcall" and e.node.get("callee", "").startswith("std::condition_variable") and last(e.node["callee"]) in CV_WAIT]
+    barrier = joins + waits
+    r.instance()
+    if not joins:
+        r.fail(f, None, "%s: no join" % what, "%s no longer joins its worker thread" % what)
+        return
+
+    def edge_ok(b, si):
+        c = strip_casts(b.cond) if b.cond is not None else None
+        if c is None:
+            return True
+        txt = show(c)
+        lab = b.edge_label(si)
+        # (a) self call: the `==` side of a comparison of this_thread::get_id() with a thread id
+        if "this_thread::get_id()" in txt and c.get("k") in ("bin", "opcall") and c.get("op") in ("==", "!="):
+            if (c["op"] == "==") == (lab is True):
+                return False
+        # (b) nothing to join
+        if c.get("k") == "mcall" and last(c.get("callee", "")) == "joinable" and lab is False:
+            return False
+        # (c) states for which stop() reports failure without touching anything
+        if allowed_state_returns and c.get("k") in ("bin", "opcall") and c.get("op") == "==" and any(x.get("k") == "enum" and last(x["n"]) in allowed_state_returns for x in walk(c)) and lab is True:
+            return False
+        return True
+    w = search(f, ("entry",), "exit", stop=lambda x: x in barrier, eh=False, edge_ok=edge_ok)
+    r.expect(w is None, f, None, "%s returns while the worker may still run" % what, "%s can return without having joined the worker thread or waited for the caller that is joining it (%s): a second caller that "
+             "finds the stop already in progress returns at once while callbacks / handlers are still running or still to come" % (what, witness_str(f, w)),
+             okdesc="%s: every return is behind the join or a wait for the joiner" % what)
